@@ -61,7 +61,8 @@ PROPS = {
                    "readdir entries), check_perm_invariant gives order independence, init_only_on_empty and "
                    "init_produces_valid_store cover initialisation; generated directories and histories are run on the "
                    "real store and compared with the model and with an independent statement of the property.",
-        rule="Directories of 0-6 entries from valid names: .user/.admin files (supported, unknown set, empty, garbage, other "
+        rule="Directories of 0-8 entries from valid names (half of them from a family of RELATED names: P, P.doe, P.b, "
+             "P.user, P.admin, P-x, P@m ... so that other users' files sort between P.admin and P.user): .user/.admin files (supported, unknown set, empty, garbage, other "
              "algorithm's format id), other extensions, sub-directories with user-file names, .tmp as directory or file, "
              "invalid-named files, double extensions; Check/List/ListFull/Exists/Init observed. Histories from an "
              "initialised store that never remove or demote the last administrator: Check, no-two-files and empty work "
@@ -164,7 +165,8 @@ PROPS = {
                    "(candidate search with x/crypto). Stores are built with store.NewDirFromConfig from generated YAML.",
         rule="Generated YAML configurations (scrypt cost 1-6 (thorough: up to 12), r absent/0/1/8/16, p absent/0/1/2, "
              "argon2id time 1-3, memory 8..1024, threads 1-4, length 4..64; 1-4 sets, any default, default switched "
-             "between writes); 4-9 writes each with high-entropy passwords; per write: shape, default id, time window, "
+             "between writes); 4-9 writes each with high-entropy passwords, a third of the updates replacing a record whose "
+             "time stamp was skewed behind the store's back (+2 s .. +400 d, past, epoch, +-2^62); per write: shape, default id, time window, "
              "salt size, salt freshness, digest vs x/crypto oracle from the YAML values, observed effective parameters, "
              "search for passwords and HMAC keys (raw, base64 std/url/raw, hex) in every file of the directory.",
         trusted=[T_CRYPTO, "yaml.v3", T_FS],
@@ -180,8 +182,10 @@ PROPS = {
                    "HTTP update by admin / by the user's session / by old password, CLI binary add/update/init) on real "
                    "agents with thresholds placed around the observed estimate, compared with zxcvbn-go called directly.",
         rule="Condition strings from a grammar mutator (kinds, operators, thresholds incl. 2^64-1/2^64/negative/float, "
-             "ASCII white-space variants, extra fields); 6 (40) agents x 60 (300) writes of 26 passwords (dictionary "
-             "words, user-name derived, strong) through 10 write paths.",
+             "ASCII white-space variants, extra fields); 6 (40) agents x 60 (300) writes of 51 passwords (dictionary "
+             "words, user-name derived, strong, and transformation-sensitive ones: a weak body with a dictionary word "
+             "straddling byte 8..128, a weak run followed by a strong tail, white-space / case / NUL variants) through "
+             "10 write paths.",
         trusted=["zxcvbn-go's estimate (score, entropy, crack time) is a parameter of the model", T_CRYPTO],
         partial=["strings.Fields splits on Unicode white space; the model (and the generator) use ASCII white space"],
     ),
@@ -196,8 +200,9 @@ PROPS = {
              "three levels, numeric edge values (0,1,31,32,255,256,2^32-1,2^32,2^64-1,2^64,-1,1.5,strings,lists,maps), "
              "both/no algorithm, HMAC key variants, duplicate ids and top-level keys, default 0/missing/undefined.",
         trusted=["yaml.v3 (KnownFields) decides decodability: modelled as an interface", T_CRYPTO],
-        partial=["reload all-or-nothing is decided by the run (real SIGHUPs to a real agent, 12 kinds of new "
-                 "configuration, clients in flight): the swap is a single pointer assignment in the code, which the model "
+        partial=["reload all-or-nothing is decided by the run (real SIGHUPs to a real agent in upgrade modes off / local / "
+                 "remote, 12 kinds of new configuration, free-running clients in flight, and a staged phase in which the "
+                 "dispatcher is held while an update, a login, a list and a failing update are queued and the signal arrives): the swap is a single pointer assignment in the code, which the model "
                  "does not add anything to",
                  "memory exhaustion for huge cost/memory values is a run-time fact outside the model"],
     ),
@@ -267,10 +272,12 @@ PROPS = {
         rule="Timing patterns 0/1/2/many notifications per interval, bursts, two intervals, notifications within +-20 ms of "
              "the timer, random gaps; hooks directories 0755/0700/0775/0777/0757/0752 x 16 entries (regular 0755..0000, "
              "single execute bits, hidden, setuid, symlinks to executable / non-executable / missing targets, hidden "
-             "symlink, sub-directory); agent operations add/update/set-admin/remove succeeding and failing; thorough: a "
-             "hanging hook is observed to be killed after the one-minute limit while the agent answers.",
+             "symlink, sub-directory); agent operations add/update/set-admin/remove succeeding and failing; three hanging "
+             "hooks (a sleeper, a shell ignoring TERM/HUP/INT/QUIT, a shell blocking them and waiting for a child) "
+             "started through a real agent: answered at once, alive after 10 s, gone after the one-minute limit.",
         trusted=["real time, process start latency (tolerance 150 ms), /bin/sh and date in the hook scripts"],
-        partial=["the one-minute kill and 'never delays the agent' are run-time facts observed in the thorough tier only"],
+        partial=["the one-minute kill and 'never delays the agent' are run-time facts: observed on every run (the check "
+                 "therefore takes ~70 s), not proved"],
     ),
     "C20": dict(
         modules=["Whawty.Props.C20"],
@@ -285,7 +292,8 @@ PROPS = {
              "short ones (bytes 1..255, sometimes an embedded NUL), option sets, server scripts: whole replies "
              "(OK/NO with messages, near misses of OK, wrong announced lengths, over-long), replies cut at a random "
              "byte then close/reset, 1-byte dribble, header/body split, trailing bytes, silence and late answers "
-             "beyond the 1 s timeout, early close, reset, unreachable socket, no password available.",
+             "beyond the 1 s timeout, early close, reset, unreachable socket, no password available; NUL-free replies of "
+             "252..4000 bytes (announced length = body, 256, 257, 258, 65535) under the option sets that log the reply.",
         trusted=["C compiler and libc; Linux-PAM replaced by stub headers (pam_get_user/pam_get_item/pam_prompt)",
                  "ASan/UBSan as the memory-error oracle"],
         partial=["memory safety and wall-clock bounds are run-time facts: observed with ASan/UBSan and the harness "
@@ -344,7 +352,9 @@ PROPS = {
                    "rewrite is compared with the model's update.",
         rule="24 (300) agents: default set 1 or 2 (scrypt / argon2id), records of four users re-hashed under the other "
              "set at random, auxiliary data of three shapes attached, optional zxcvbn policy that one user's password "
-             "fails; 8 logins each with right / wrong passwords; the directory is polled on the otherwise idle agent; "
+             "fails; 8 logins each with right / wrong passwords; the directory is polled on the otherwise idle agent; in "
+             "half of the local-mode agents a saturation prelude first serves upgradeable logins while the update queue "
+             "is full (their upgrade requests are dropped) and the idle logins afterwards must still upgrade; "
              "digests recomputed with x/crypto.",
         trusted=[T_CRYPTO, T_GO, "zxcvbn-go"],
         partial=["'on an otherwise idle agent the rewrite does happen' is observed with a 400 ms wait (scheduling), not proved"],
